@@ -171,8 +171,54 @@ theorem j3_reply {x : SG} {p p' : Peripheral} {t : Telegram} {ev : Option PEvent
       (rw [hs', hkk]; simp only [bringUp]; rcases hst with hst | hst <;> simp [hst, h4])
 
 theorem inv3_step {fp : FdlParams} (hfp : FpOk fp) {g g' : G} (hI : Inv fp g) (h8 : Inv8 g) (h3 : Inv3 g) (op : Op)
-    (h : gstep fp g op = .ok g') : Inv3 g' := by
+    (h : gstep fp g op = .ok g') (hu : g'.tainted = false) : Inv3 g' := by
+  have hu0 := tainted_mono op h hu
   cases op with
+  | resetAddr slot a =>
+    simp only [gstep] at h
+    split at h
+    · cases h
+    · cases hw : g.m.resetAddress slot a with
+      | none => rw [hw] at h; cases h
+      | some m' =>
+        rw [hw] at h
+        simp only [Res3.ok.injEq] at h; subst h
+        unfold Master.resetAddress Master.peripheral? at hw
+        cases hs : g.m.slots.getD slot none with
+        | none => rw [hs] at hw; cases hw
+        | some p =>
+          rw [hs] at hw
+          simp only [Option.some.injEq] at hw; subst hw
+          have hj : g.m.slots[slot]? = some (some p) := by
+            rw [List.getD_eq_getElem?_getD] at hs
+            cases hh : g.m.slots[slot]? with
+            | none => rw [hh] at hs; cases hs
+            | some x => rw [hh] at hs; simp only [Option.getD_some] at hs; rw [hs]
+          simp only [Bool.or_eq_false_iff] at hu
+          refine ⟨?_, ?_⟩
+          · refine set_pres (fun j p => J3 (g.sg j) p) (fun j p => J3 (g.upd slot (fun _ => {}) j) p) h3.slot ?_ ?_
+            · rw [upd_same]
+              exact ⟨fun _ => rfl, (by intro h; cases h), (by intro h; cases h), (by intro h; cases h),
+                (by intro h; rcases h with h | h <;> cases h)⟩
+            · intro j q hjq hJ; rw [upd_other _ _ hjq]; exact hJ
+          · intro a' ha' j q hq hst
+            rw [cur_of_set hj { g.m with slots := g.m.slots.set slot (some (p.resetAddress a)) } rfl rfl] at hq
+            cases hc : g.m.cur with
+            | none => rw [hc] at hq; cases hq
+            | some ip =>
+              obtain ⟨i0, p0⟩ := ip
+              rw [hc] at hq
+              simp only [Option.map_some, Option.some.injEq] at hq
+              have ho : g.out = some a' := ha'
+              by_cases hij : i0 = slot
+              · exfalso
+                have h2 := hu.2
+                simp [resetTaints, ho, hc, hij] at h2
+              · simp only [hij, if_false, Prod.mk.injEq] at hq
+                obtain ⟨rfl, rfl⟩ := hq
+                show (g.upd slot (fun _ => {}) i0).s = 1
+                rw [upd_other _ _ hij]
+                exact h3.await a' ho i0 p0 hc hst
   | tx now hp =>
     have hdec : ∀ {m'}, Declined fp g.m m' → ∀ (i : Nat) (p : Peripheral), m'.slots[i]? = some (some p) → J3 (g.sg i) p :=
       fun hD => declined_pres hD (fun i p => J3 (g.sg i) p) (fun i p hJ _ => j3_same_state hJ rfl) h3.slot
@@ -210,7 +256,7 @@ theorem inv3_step {fp : FdlParams} (hfp : FpOk fp) {g g' : G} (hI : Inv fp g) (h
           (by intro h; rcases h with h | h <;> cases h)⟩
       · intro j q hj hJ; rw [upd_other _ _ hj]; exact hJ
   | reply a t =>
-    obtain ⟨index, i, p, p', ev, ho, hcy, hc, hpa, hal, hspec, rfl⟩ := reply_form hI h
+    obtain ⟨index, i, p, p', ev, ho, hcy, hc, hpa, hal, hspec, rfl⟩ := reply_form hI hu0 h
     have hi := (curSlot_spec hc).2.2.1
     have hcur : g.m.cur = some (i, p) := by simp [Master.cur, hcy, hc]
     have hA := h8.await a ho i p hcur
